@@ -74,6 +74,14 @@ def coords2 : IO Unit := do
     for lat in [(-91 : Rat), -90, 0, 90, 91] do
       let m := if (lon > 360 ∨ lon < -180) ∨ (lat > 90 ∨ lat < -90) then "err" else "ok"
       IO.println s!"geoCoordBad {ratS lon} {ratS lat} | {okS (Gen.geoCoordBad lon lat)} | {m}"
+  for (x, y) in [((0 : Rat), (0 : Rat)), (1, 1), (2, 2), (1/2, 3), (-1, 1), (2, -1/2), (3, 1), (1, 2), (0, 2), (2, 0), (5/2, 1)] do
+    let r : Region := ⟨0, 2, 0, 2⟩
+    IO.println s!"insidePt 0 2 0 2 {ratS x} {ratS y} | {Gen.insidePt r.w r.e r.s r.n x y} | {insidePt r x y}"
+  for (es, ns) in [([(1 : Rat), 3, -2, 5/2], [(0 : Rat), 7, 7, -1]), ([4], [4]), ([2, 2, 2], [1, 0, 1]), ([-1, -5, -3], [9, 8, 10])] do
+    let g := Gen.getRegion es ns
+    let o := fun (x : Option Rat) => match x with | some v => ratS v | none => "err"
+    let m := match getRegion es ns with | some r => s!"{ratS r.w} {ratS r.e} {ratS r.s} {ratS r.n}" | none => "err"
+    IO.println s!"getRegion {",".intercalate (es.map ratS)} {",".intercalate (ns.map ratS)} | {o g.1} {o g.2.1} {o g.2.2.1} {o g.2.2.2} | {m}"
   for (nn, ne) in [((2 : Nat), (2 : Nat)), (3, 5), (7, 2), (14, 11), (2, 9)] do
     for px in [false, true] do
       for r in [(⟨0, 10, -5, 1⟩ : Region), ⟨-1/2, 21/2, -11/2, 3/2⟩, ⟨3, 3, 1, 4⟩] do
